@@ -12,6 +12,7 @@ pub fn alphabet(thorough: bool) -> Vec<crate::connx::Piece> {
         piece("h_expect_caps_padded", Class::Header, b"EXPECT:  100-continue \r\n"),
         piece("h_expect_100-Continue", Class::Header, b"Expect: 100-Continue\r\n"),
         piece("h_expect_103", Class::Header, b"Expect: 103-checkpoint\r\n"),
+        piece("h_expect_list", Class::Header, b"Expect: 100-continue,x\r\n"),
         piece("h_cl0", Class::Header, b"Content-Length: 0\r\n"),
         piece("h_cl1", Class::Header, b"Content-Length: 1\r\n"),
         piece("h_cl40", Class::Header, b"Content-Length: 40\r\n"),
